@@ -214,12 +214,7 @@ func e2eInjectWorker(args []string) error {
 			return
 		}
 
-		w.Heartbeat("t")
-
-		if w.Died {
-			return
-		}
-
+		// (the heartbeat on the target peer is sent by Inject itself, as a barrier)
 		if !probeAssoc {
 			ds := w.Assoc("probe")
 			probeAssoc = len(ds) == 1 && ds[0].Cause == 1
